@@ -404,7 +404,7 @@ def handle (st : State) (req : Json) : Except String (State × Json) := do
           pure (Json.mkObj [("r", "ok"), ("len", Json.num (lenBody b v)), ("enclen", Json.num (encLen b v)),
             ("lenwf", Json.bool (lenWfBody b)), ("decwf", Json.bool (decWfBody b)),
             ("refwf", Json.bool (refWfBody b)), ("nomod", Json.bool (noModBody b)),
-            ("rtwf", Json.bool (rtWfFull b)), ("exactwf", Json.bool (exactWfBody b)), ("typed", Json.bool (typedBody b v)), ("pywf", Json.bool (Py.wfBody b)), ("cxxwf", Json.bool (Cxx.wfBody b)), ("cxxvwf", Json.bool (Cxx.vwfBody b)), ("cxxvchain", Json.bool (Cxx.vwfChain b)), ("cxxserwf", Json.bool (Cxx.serWfBody b)), ("convwf", Json.bool (convWfBody b)), ("pyserwf", Json.bool (Py.serWfBody b)), ("pychildwf", Json.bool (Py.serWfChild b)), ("commonwf", Json.bool (match b with | .root nm items => Interop.commonWf nm items | _ => false)), ("javawf", Json.bool (Java.wfBody b)), ("javaencwf", Json.bool (match b with | .root _ items => Java.encWfItems items | _ => false)), ("javachildwf", Json.bool (Java.encWfChild b)), ("javadecwf", Json.bool (match b with | .root _ items => Java.decWfItems items || Java.decWfItems2 items || Java.decWfItems3 items | _ => false)), ("derived", Json.bool (match b with | .derived .. => true | _ => false))])
+            ("rtwf", Json.bool (rtWfFull b)), ("exactwf", Json.bool (exactWfBody b)), ("typed", Json.bool (typedBody b v)), ("pywf", Json.bool (Py.wfBody b)), ("cxxwf", Json.bool (Cxx.wfBody b)), ("cxxvwf", Json.bool (Cxx.vwfBody b)), ("cxxvchain", Json.bool (Cxx.vwfChain b)), ("cxxserwf", Json.bool (Cxx.serWfBody b)), ("convwf", Json.bool (convWfBody b)), ("pyserwf", Json.bool (Py.serWfBody b)), ("pychildwf", Json.bool (Py.serWfChild b)), ("commonwf", Json.bool (match b with | .root nm items => Interop.commonWf nm items | _ => false)), ("javawf", Json.bool (Java.wfBody b)), ("javaencwf", Json.bool (match b with | .root _ items => Java.encWfItems items || Java.encWfItems3 items | _ => false)), ("javachildwf", Json.bool (Java.encWfChild b)), ("javadecwf", Json.bool (match b with | .root _ items => Java.decWfItems items || Java.decWfItems2 items || Java.decWfItems3 items | _ => false)), ("derived", Json.bool (match b with | .derived .. => true | _ => false))])
         | "canon" =>
           -- the right-hand side of theorem `roundtrip`: the normal form of the value
           let v ← valueOfJson (← c.getObjVal? "v")
